@@ -191,6 +191,11 @@ INVALID = ['(' * 80 + 'a', '(' * 70 + 'a' + ')' * 69, 'a == "' + '(' * 90 + '" b
 # blank, tab, CR and LF only), a zero-width mark and NUL: stray at the start, at the end and between tokens
 STRAY = ['\x0b', '\x0c', '\x1c', '\x1d', '\x1e', '\x1f', u'\x85', u'\xa0', u'\u1680', u'\u2000', u'\u2003', u'\u2028', u'\u2029', u'\u202f', u'\u205f',
          u'\u3000', u'\ufeff', u'\u200b', '\x00', '\x7f']
+# letters and digits beyond ASCII are not name characters (tag names, reference names): word-character classes of regex
+# engines are Unicode-aware by default, the grammar is not
+for _c in [u'\xe9', u'\u0430', u'\xb2', u'\uff41', u'\xdf', u'\u01c5', u'\u0301', u'\u200d']:
+    INVALID += [u'a == @x%sy' % _c, u'a == @%s' % _c, u'a == [@x%s]' % _c, u'a == {k:@x%s}' % _c, u'x%sy' % _c, u'not x%s' % _c, u'r->x%s' % _c,
+                u'x%s == 1' % _c]
 for _c in STRAY:
     INVALID += ['a' + _c, _c + 'a', 'a' + _c + 'and b', _c + 'a == 1' + _c, 'a == "x"' + _c, 'not' + _c + 'a', 'a ' + _c, ' ' + _c + ' a']
 
@@ -208,7 +213,7 @@ def run_filter(hs, g, text):
     try:
         try:
             res = g.filter(text)
-            out = ('ok', tuple(r.get('id') for r in res))
+            out = ('ok', tuple(r.get('id') for r in res), None, res)
         except BaseException as e:  # noqa
             out = ('raise', type(e).__name__, type(e).__module__)
     finally:
@@ -229,8 +234,10 @@ def probe_rows(hs, spec, shape='alone'):
 
 
 def _probe_rows(hs, spec):
+    # two rows share the id 'plain' (and two ids, 7 and '7', one string form): lookups answer with the LATER row, filters may select the earlier
     rows = [{'id': 'plain', 'a': 'zz'}, {'id': 'noa'},
-            {'id': hs.Ref('tgt', 'Target display'), 'a': 'zz'}, {'id': 'src', 'r': hs.Ref('tgt')}]
+            {'id': hs.Ref('tgt', 'Target display'), 'a': 'zz'}, {'id': 'src', 'r': hs.Ref('tgt')},
+            {'id': 7, 'a': 'zz'}, {'id': 'plain'}, {'id': '7'}]
     if spec is None:
         return rows
     kind = spec[0]
@@ -258,7 +265,7 @@ def _probe_rows(hs, spec):
 def lookup_answers(hs, g):
     """What the grid answers to id lookups (observable state beyond the rows); compared with a never-filtered twin."""
     out = []
-    for key in ('plain', 'src', 'tgt', '@tgt', hs.Ref('tgt'), hs.Ref('tgt', 'Target display'), 'data', 'nowhere'):
+    for key in ('plain', 'src', 'tgt', '@tgt', hs.Ref('tgt'), hs.Ref('tgt', 'Target display'), 'data', 'nowhere', '7', 'noa'):
         try:
             got = g.get(key)
             out.append(None if got is None else [k for k, x in enumerate(g) if x is got])
@@ -294,6 +301,7 @@ def task(items):
             twin_grid.append(r)
         before_grid = O.observe_grid(g, hs)
         answers_before = lookup_answers(hs, twin_grid)
+        g.get('nowhere')                # the id index of the source exists before the filters run (a parsed grid has one too)
         # twin first (same kind, same position), then the canary
         tout, tev, tflag, tw = run_filter(hs, g, twin)
         snap0 = snapshot()
@@ -321,6 +329,18 @@ def task(items):
             problems.append(('filter-modified-the-grid', {}))
         if lookup_answers(hs, g) != answers_before:
             problems.append(('filter-changed-what-the-grid-answers', {}))
+        if out[0] == 'ok' and out[3] is not None:
+            # the RESULT grid answers lookups with its own rows only
+            res = out[3]
+            mine = list(res)
+            for key in ('plain', 'noa', '7', 'src', 'data'):
+                try:
+                    hit = res.get(key)
+                except Exception as e:  # noqa
+                    hit = None
+                if hit is not None and not any(hit is r for r in mine):
+                    problems.append(('filter-result-answers-lookups-with-rows-it-does-not-hold', {'key': key}))
+                    break
         if out[0] == 'ok':
             sel = set(out[1])
             if 'evaluated' in sel or 'canary-result' in sel:
